@@ -951,4 +951,21 @@ example :
     wellUsedFrom [] [] s.σ.w.host.log.reverse = true ∧ issuedIn s.σ.w.host.log = [1, 2] ∧ closedIn s.σ.w.host.log = [2] := by
   decide
 
+/-- No leak, at every state: in a history that keeps the local span map (from a fresh host), every
+    host span issued to the chain is either closed or still referred to by the map; and whatever the
+    map refers to was issued and is not closed, no two guest spans sharing a host span. -/
+theorem C08_open_spans_are_the_mapped_ones (arena : List CallSite) (ops : List HOp) (hk : onlyKeep ops = true) :
+    let s := runHistory (Sys.init { arena, host := {} }) ops
+    (∀ h ∈ issuedIn s.σ.w.host.log, h ∈ closedIn s.σ.w.host.log ∨ ∃ g, s.σ.r.loc.get g = some h) ∧
+    (∀ g h, s.σ.r.loc.get g = some h → Live s.σ.w.host h) ∧
+    (∀ g₁ g₂ h, s.σ.r.loc.get g₁ = some h → s.σ.r.loc.get g₂ = some h → g₁ = g₂) := by
+  intro s
+  have hi0 : IdInv (Sys.init { arena, host := {} }).σ :=
+    init_inv _ ⟨HostInv.empty.wu, HostInv.empty.lt⟩
+  have hc0 : CInv (Sys.init { arena, host := {} }).σ :=
+    ⟨fun g h e => by simp [Sys.init, AMap.get] at e,
+     fun h hh => by simp [Sys.init, issuedIn] at hh⟩
+  obtain ⟨hi, hc⟩ := run_cinv ops _ hk hi0 hc0
+  exact ⟨hc.acc, hi.loc.live, hi.loc.inj⟩
+
 end TT
